@@ -274,6 +274,23 @@ def raw_txt_of(c):
     return txt_of(c)
 
 
+def _rereadable(inv=None, at=None):
+    """Re-readability, the part of I_SSC about MORE than one use: a read (as_str / as_lines / as_file / write_to)
+    leaves the object in a state that satisfies the class invariant again and in which its text is the text it
+    had before.  Every read is proved from the class invariant alone, so by induction over the uses every later
+    read, of any kind and in any order, sees the same txt (the interface SSCI assumes exactly this of an abstract
+    text: `txt` is one constant).  `old` (or old[at]) of the contract is txt_of(self) in the pre-state.
+    The iterator handed out by as_lines is consumed by the clause about the lines BEFORE these clauses are
+    evaluated (clauses are evaluated in order): a cache that shares state with it is seen in its consumed state."""
+    if at is None:
+        d = {'re-readable: the text is what it was before': lambda self, old: txt_of(self) == old}
+    else:
+        d = {'re-readable: the text is what it was before': lambda self, old: txt_of(self) == old[at]}
+    if inv is not None:
+        d['re-readable: the class invariant holds afterwards'] = lambda self: inv(self)
+    return d
+
+
 def cached_path_ok(c):
     """class invariant of StringSourceContentsWithCachedPath: a cached path holds the text"""
     return c._as_file_path is None or file_text(c._as_file_path) == txt_of(c)
@@ -286,16 +303,21 @@ CONTENTS_OF_STR = Inst(contents_of_str.ContentsOfStr, _invariant=cached_path_ok,
                        _as_file_path=Opt(Iface(PathI)))
 
 M.contract(P_COS + ':ContentsOfStr.as_str', params=dict(self=CONTENTS_OF_STR), inline=True,
-           ensures={'as_str == txt': lambda self, result: result == txt_of(self)}, raises_only=())
+           old=lambda self: txt_of(self),
+           ensures={'as_str == txt': lambda self, result: result == txt_of(self), **_rereadable(cached_path_ok)},
+           raises_only=())
 
 M.contract(P_COS + ':ContentsOfStr.as_lines', params=dict(self=CONTENTS_OF_STR), inline=True,
-           ensures={'lines == split_nl(txt)': lambda self, yielded: is_split_nl(ctx_lines(yielded), txt_of(self))},
+           old=lambda self: txt_of(self),
+           ensures={'lines == split_nl(txt)': lambda self, yielded: is_split_nl(ctx_lines(yielded), txt_of(self)),
+                    **_rereadable(cached_path_ok)},
            replay=lambda model, rf: replays_c14.source('lines_of_contents_of_str'),
            raises_only=())
 
 M.contract(P_COS + ':ContentsOfStr.write_to', params=dict(self=CONTENTS_OF_STR, output=Iface(TextOutI)), inline=True,
-           old=lambda output: written(output),
-           ensures={'appends txt': lambda self, output, old: written(output) == old + txt_of(self)},
+           old=lambda self, output: (written(output), txt_of(self)),
+           ensures={'appends txt': lambda self, output, old: written(output) == old[0] + txt_of(self),
+                    **_rereadable(cached_path_ok, at=1)},
            raises_only=())
 
 
@@ -306,19 +328,25 @@ CONTENTS_OF_PATH = Inst(contents_of_existing_path.StringSourceContentsOfExisting
                         _existing_regular_file_path=Iface(PathI), _tmp_file_space=Iface(DirFileSpaceI))
 
 M.contract(P_COEP + ':StringSourceContentsOfExistingPath.as_str', params=dict(self=CONTENTS_OF_PATH), inline=True,
-           ensures={'as_str == txt': lambda self, result: result == txt_of(self)}, raises_only=())
+           old=lambda self: txt_of(self),
+           ensures={'as_str == txt': lambda self, result: result == txt_of(self), **_rereadable()}, raises_only=())
 
 M.contract(P_COEP + ':StringSourceContentsOfExistingPath.as_lines', params=dict(self=CONTENTS_OF_PATH), inline=True,
-           ensures={'lines == split_nl(txt)': lambda self, yielded: is_split_nl(ctx_lines(yielded), txt_of(self))},
+           old=lambda self: txt_of(self),
+           ensures={'lines == split_nl(txt)': lambda self, yielded: is_split_nl(ctx_lines(yielded), txt_of(self)),
+                    **_rereadable()},
            raises_only=())
 
 M.contract(P_COEP + ':StringSourceContentsOfExistingPath.as_file', params=dict(self=CONTENTS_OF_PATH), inline=True,
-           ensures={'file decodes to txt': lambda self, result: file_text(result) == txt_of(self)}, raises_only=())
+           old=lambda self: txt_of(self),
+           ensures={'file decodes to txt': lambda self, result: file_text(result) == txt_of(self), **_rereadable()},
+           raises_only=())
 
 M.contract(P_COEP + ':StringSourceContentsOfExistingPath.write_to',
            params=dict(self=CONTENTS_OF_PATH, output=Iface(TextOutI)), inline=True,
-           old=lambda output: written(output),
-           ensures={'appends txt': lambda self, output, old: written(output) == old + txt_of(self)},
+           old=lambda self, output: (written(output), txt_of(self)),
+           ensures={'appends txt': lambda self, output, old: written(output) == old[0] + txt_of(self),
+                    **_rereadable(at=1)},
            raises_only=())
 
 
@@ -328,7 +356,8 @@ M.contract(P_COEP + ':StringSourceContentsOfExistingPath.write_to',
 
 def _const_str_and_path_ok(c):
     return file_text(c._contents_as_existing_file) == c._contents_as_str \
-        and (c._contents_as_lines is None or is_split_nl(c._contents_as_lines, c._contents_as_str))
+        and (c._contents_as_lines is None
+             or (isinstance(c._contents_as_lines, list) and is_split_nl(c._contents_as_lines, c._contents_as_str)))
 
 
 CONST_STR_AND_PATH = Inst(frozen._StringSourceContentsOfConstStrAndExistingPath, _invariant=_const_str_and_path_ok,
@@ -338,19 +367,26 @@ CONST_STR_AND_PATH = Inst(frozen._StringSourceContentsOfConstStrAndExistingPath,
 _P_CSP = P_FROZEN + ':_StringSourceContentsOfConstStrAndExistingPath'
 
 M.contract(_P_CSP + '.as_str', params=dict(self=CONST_STR_AND_PATH), inline=True,
-           ensures={'as_str == txt': lambda self, result: result == txt_of(self)}, raises_only=())
+           old=lambda self: txt_of(self),
+           ensures={'as_str == txt': lambda self, result: result == txt_of(self),
+                    **_rereadable(_const_str_and_path_ok)}, raises_only=())
 
 M.contract(_P_CSP + '.as_lines', params=dict(self=CONST_STR_AND_PATH), inline=True,
-           ensures={'lines == split_nl(txt)': lambda self, yielded: is_split_nl(ctx_lines(yielded), txt_of(self))},
+           old=lambda self: txt_of(self),
+           ensures={'lines == split_nl(txt)': lambda self, yielded: is_split_nl(ctx_lines(yielded), txt_of(self)),
+                    **_rereadable(_const_str_and_path_ok)},
            replay=lambda model, rf: replays_c14.source('lines_of_const_str_and_path'),
            raises_only=())
 
 M.contract(_P_CSP + '.as_file', params=dict(self=CONST_STR_AND_PATH), inline=True,
-           ensures={'file decodes to txt': lambda self, result: file_text(result) == txt_of(self)}, raises_only=())
+           old=lambda self: txt_of(self),
+           ensures={'file decodes to txt': lambda self, result: file_text(result) == txt_of(self),
+                    **_rereadable(_const_str_and_path_ok)}, raises_only=())
 
 M.contract(_P_CSP + '.write_to', params=dict(self=CONST_STR_AND_PATH, output=Iface(TextOutI)), inline=True,
-           old=lambda output: written(output),
-           ensures={'appends txt': lambda self, output, old: written(output) == old + txt_of(self)},
+           old=lambda self, output: (written(output), txt_of(self)),
+           ensures={'appends txt': lambda self, output, old: written(output) == old[0] + txt_of(self),
+                    **_rereadable(_const_str_and_path_ok, at=1)},
            raises_only=())
 
 
@@ -375,16 +411,21 @@ CONTENTS_VIA_WRITE_TO = Inst(contents_via_write_to.ContentsViaWriteTo, _invarian
                              _as_file_path=Opt(Iface(PathI)))
 
 M.contract(P_CVWT + ':ContentsViaWriteTo.as_str', params=dict(self=CONTENTS_VIA_WRITE_TO), inline=True,
-           ensures={'as_str == txt': lambda self, result: result == txt_of(self)}, raises_only=())
+           old=lambda self: txt_of(self),
+           ensures={'as_str == txt': lambda self, result: result == txt_of(self), **_rereadable(cached_path_ok)},
+           raises_only=())
 
 M.contract(P_CVWT + ':ContentsViaWriteTo.as_lines', params=dict(self=CONTENTS_VIA_WRITE_TO), inline=True,
-           ensures={'lines == split_nl(txt)': lambda self, yielded: is_split_nl(ctx_lines(yielded), txt_of(self))},
+           old=lambda self: txt_of(self),
+           ensures={'lines == split_nl(txt)': lambda self, yielded: is_split_nl(ctx_lines(yielded), txt_of(self)),
+                    **_rereadable(cached_path_ok)},
            raises_only=())
 
 M.contract(P_CVWT + ':ContentsViaWriteTo.write_to',
            params=dict(self=CONTENTS_VIA_WRITE_TO, output=Iface(TextOutI)), inline=True,
-           old=lambda output: written(output),
-           ensures={'appends txt': lambda self, output, old: written(output) == old + txt_of(self)},
+           old=lambda self, output: (written(output), txt_of(self)),
+           ensures={'appends txt': lambda self, output, old: written(output) == old[0] + txt_of(self),
+                    **_rereadable(cached_path_ok, at=1)},
            replay=lambda model, rf: replays_c14.source('write_to_of_via_write_to'),
            raises_only=())
 
@@ -420,18 +461,23 @@ TRANSFORMED_CONTENTS = Inst(tss_prims._TransformedStringSourceContentsFromLines,
 _P_TC = P_TSS + ':_TransformedStringSourceContentsFromLines'
 
 M.contract(_P_TC + '.as_lines', params=dict(self=TRANSFORMED_CONTENTS), inline=True,
-           ensures={'lines == split_nl(txt)': lambda self, yielded: is_split_nl(ctx_lines(yielded), txt_of(self))},
+           old=lambda self: txt_of(self),
+           ensures={'lines == split_nl(txt)': lambda self, yielded: is_split_nl(ctx_lines(yielded), txt_of(self)),
+                    **_rereadable(cached_path_ok)},
            raises_only=())
 M.contract(_P_TC + '.tmp_file_space', params=dict(self=TRANSFORMED_CONTENTS), inline=True,
            ensures={'of the source': lambda self, result: result is self._transformed.tmp_file_space},
            raises_only=())
 
 M.contract(P_CWCP + ':ContentsWithCachedPathFromAsLinesBase.as_str', params=dict(self=TRANSFORMED_CONTENTS), inline=True,
-           ensures={'as_str == txt': lambda self, result: result == txt_of(self)}, raises_only=())
+           old=lambda self: txt_of(self),
+           ensures={'as_str == txt': lambda self, result: result == txt_of(self), **_rereadable(cached_path_ok)},
+           raises_only=())
 M.contract(P_CWCP + ':ContentsWithCachedPathFromAsLinesBase.write_to',
            params=dict(self=TRANSFORMED_CONTENTS, output=Iface(TextOutI)), inline=True,
-           old=lambda output: written(output),
-           ensures={'appends txt': lambda self, output, old: written(output) == old + txt_of(self)},
+           old=lambda self, output: (written(output), txt_of(self)),
+           ensures={'appends txt': lambda self, output, old: written(output) == old[0] + txt_of(self),
+                    **_rereadable(cached_path_ok, at=1)},
            raises_only=())
 
 # --- filter/string_sources.TransformedContentsViaAsLinesBase (base of the line-number filters): the abstract
@@ -449,13 +495,18 @@ VIA_AS_LINES = Inst(_ViaAsLines, _invariant=cached_path_ok,
 _P_VAL = 'exactly_lib.impls.types.string_transformer.impl.filter.string_sources:TransformedContentsViaAsLinesBase'
 
 M.contract(_P_VAL + '.as_lines', params=dict(self=VIA_AS_LINES), inline=True,
-           ensures={'lines == split_nl(txt)': lambda self, yielded: is_split_nl(ctx_lines(yielded), txt_of(self))},
+           old=lambda self: txt_of(self),
+           ensures={'lines == split_nl(txt)': lambda self, yielded: is_split_nl(ctx_lines(yielded), txt_of(self)),
+                    **_rereadable(cached_path_ok)},
            raises_only=())
 M.contract(_P_VAL + '.as_str', params=dict(self=VIA_AS_LINES), inline=True,
-           ensures={'as_str == txt': lambda self, result: result == txt_of(self)}, raises_only=())
+           old=lambda self: txt_of(self),
+           ensures={'as_str == txt': lambda self, result: result == txt_of(self), **_rereadable(cached_path_ok)},
+           raises_only=())
 M.contract(_P_VAL + '.write_to', params=dict(self=VIA_AS_LINES, output=Iface(TextOutI)), inline=True,
-           old=lambda output: written(output),
-           ensures={'appends txt': lambda self, output, old: written(output) == old + txt_of(self)},
+           old=lambda self, output: (written(output), txt_of(self)),
+           ensures={'appends txt': lambda self, output, old: written(output) == old[0] + txt_of(self),
+                    **_rereadable(cached_path_ok, at=1)},
            raises_only=())
 M.contract(_P_VAL + '._to_file', params=dict(self=VIA_AS_LINES), inline=True,
            ensures={'file decodes to txt': lambda self, result: file_text(result) == txt_of(self),
@@ -475,8 +526,16 @@ M.contract(P_CWCP + ':ContentsWithCachedPathFromWriteToBase._to_file',
 
 M.contract(P_CWCP + ':StringSourceContentsWithCachedPath.as_file',
            params=dict(self=Union(CONTENTS_OF_STR, CONTENTS_VIA_WRITE_TO, TRANSFORMED_CONTENTS, VIA_AS_LINES)), inline=True,
+           old=lambda self: (txt_of(self), self._as_file_path),
            ensures={'file decodes to txt': lambda self, result: file_text(result) == txt_of(self),
-                    'the path is cached': lambda self, result: self._as_file_path is result},
+                    'the path is cached': lambda self, result: self._as_file_path is result,
+                    # (the two clauses below do not depend on decoding: they hold for texts with \r too, where
+                    #  'file decodes to txt' and the class invariant afterwards are refuted = the known finding)
+                    'the file is made once: a cached path is kept': lambda self, result, old:
+                    old[1] is None or result is old[1],
+                    'a new file stores the text as written': lambda self, result, old:
+                    old[1] is not None or file_stored(result) == raw_txt_of(self),
+                    **_rereadable(cached_path_ok, at=0)},
            replay=lambda model, rf: replays_c14.source('as_file_of_contents_of_str'),
            raises_only=())
 
@@ -812,18 +871,25 @@ M.contract(_P_FRZ + '._get_contents', params=dict(self=FREEZING), inline=True,
            raises_only=())
 
 M.contract(_P_FRZ + '.as_str', params=dict(self=FREEZING), inline=True,
-           ensures={'as_str == txt': lambda self, result: result == txt_of(self)}, raises_only=())
+           old=lambda self: txt_of(self),
+           ensures={'as_str == txt': lambda self, result: result == txt_of(self), **_rereadable(_freezing_ok)},
+           raises_only=())
 
 M.contract(_P_FRZ + '.as_lines', params=dict(self=FREEZING), inline=True,
-           ensures={'lines == split_nl(txt)': lambda self, result: is_split_nl(with_lines(result), txt_of(self))},
+           old=lambda self: txt_of(self),
+           ensures={'lines == split_nl(txt)': lambda self, result: is_split_nl(with_lines(result), txt_of(self)),
+                    **_rereadable(_freezing_ok)},
            raises_only=())
 
 M.contract(_P_FRZ + '.as_file', params=dict(self=FREEZING), inline=True,
-           ensures={'file decodes to txt': lambda self, result: file_text(result) == txt_of(self)}, raises_only=())
+           old=lambda self: txt_of(self),
+           ensures={'file decodes to txt': lambda self, result: file_text(result) == txt_of(self),
+                    **_rereadable(_freezing_ok)}, raises_only=())
 
 M.contract(_P_FRZ + '.write_to', params=dict(self=FREEZING, output=Iface(TextOutI)), inline=True,
-           old=lambda output: written(output),
-           ensures={'appends txt': lambda self, output, old: written(output) == old + txt_of(self)},
+           old=lambda self, output: (written(output), txt_of(self)),
+           ensures={'appends txt': lambda self, output, old: written(output) == old[0] + txt_of(self),
+                    **_rereadable(_freezing_ok, at=1)},
            raises_only=())
 
 M.contract(_P_FRZ + '.tmp_file_space', params=dict(self=FREEZING), inline=True,
@@ -971,11 +1037,12 @@ CONCAT_CONTENTS = Inst(concat_mod._ConcatStringSourceContents, _invariant=cached
 _P_CC = P_CONCAT + ':_ConcatStringSourceContents'
 
 M.contract(_P_CC + '.write_to', params=dict(self=CONCAT_CONTENTS, output=Iface(TextOutI)), inline=True,
-           old=lambda output: written(output),
-           ensures={'appends txt': lambda self, output, old: written(output) == old + txt_of(self)},
+           old=lambda self, output: (written(output), txt_of(self)),
+           ensures={'appends txt': lambda self, output, old: written(output) == old[0] + txt_of(self),
+                    **_rereadable(cached_path_ok, at=1)},
            raises_only=())
 M.loop(_P_CC + '.write_to', 0,
-       invariant=lambda self, output, old, _i: written(output) == old + prefix_join(part_txts(self._parts), _i),
+       invariant=lambda self, output, old, _i: written(output) == old[0] + prefix_join(part_txts(self._parts), _i),
        modifies={'output': InPlace(written=Str), 'part': 'local'})
 
 M.contract(_P_CC + '.tmp_file_space', params=dict(self=CONCAT_CONTENTS), inline=True,
